@@ -468,6 +468,42 @@ def mon_C03(sc, trace):
                     v.append("C03: node %d received message %d from node %d after a message sent later on the same link"
                              % (dst, msg, src))
                 last[(src, dst)] = max(last.get((src, dst), -1), idx)
+    # same-instant events of ANY nodes and kinds (timers, deliveries) run in the order they were requested.
+    # Needs the times (timer handler present) and unambiguous origins: every message payload sent once.
+    if has(sc, "T"):
+        sends = defaultdict(list)          # msg -> [index of the accepted send / broadcast request]
+        tsets = defaultdict(list)          # (node, name, ts) -> [indices of accepted set-timer requests], oldest first
+        for idx, t in enumerate(P):
+            if t[0] == "act" and t[-1] == "ok":
+                if t[2] in ("send", "bcast"):
+                    sends[int(t[3])].append(idx)
+                elif t[2] == "settimer":
+                    tsets[(int(t[1]), int(t[3]), fh(t[4]))].append(idx)
+        if all(len(l) == 1 for l in sends.values()):
+            prev = None                    # (time, origin key, description) of the previous timer / packet callback
+            cancelled_upto = {}            # (node, name) -> index of the last cancel seen so far
+            for idx, t in enumerate(P):
+                if t[0] == "act" and t[-1] == "ok" and t[2] == "cancel":
+                    cancelled_upto[(int(t[1]), int(t[3]))] = idx
+                if t[0] != "cb" or t[3] not in ("timer", "packet") or not t[4].isdigit():
+                    continue
+                n, tm = int(t[1]), fh(t[2])
+                if t[3] == "packet":
+                    org = sends.get(int(t[4]))
+                    key = (org[0], n) if org else None       # copies of one broadcast are requested in node order
+                else:
+                    lst = tsets.get((n, int(t[4]), tm), [])
+                    # the oldest request for (node, name, time) that was made before this callback and not cancelled since
+                    lst = [i for i in lst if i < idx and cancelled_upto.get((n, int(t[4])), -1) < i]
+                    key = (lst[0], -1) if lst else None
+                    if lst:
+                        tsets[(n, int(t[4]), tm)].remove(lst[0])
+                if key is not None and prev is not None and prev[0] == tm and key < prev[1]:
+                    v.append("C03: at time %r, %s ran after %s although it was requested earlier (trace lines %d < %d)"
+                             % (tm, " ".join(t[:5]), prev[2], key[0], prev[1][0]))
+                    break
+                if key is not None:
+                    prev = (tm, key, " ".join(t[:5]))
     # same-instant timers of a node fire in the order they were set (cancellations removed)
     if has(sc, "T"):
         pend = defaultdict(list)     # node -> [(ts, order, name)] still pending
